@@ -325,6 +325,7 @@ func int64Neighbourhood() []int64 {
 
 func runC02() {
 	r := seq.New("C02", tier, "exploration")
+	defer r.CrashGuard()
 	r.Rule = "one evaluation = one (field method, value) carried through one entry point (Event, Context, Dict, Object, Array element, Fields map/slice, hook, slice variant, Interface) by a program executed on the real zerolog, or one value of a typed sweep through the Event entry point; the emitted line is re-read by the independent tokenizer and the field compared with the reference encoding (refenc); raw value bytes must be identical to those of the Event entry point; distinct = distinct (entry point, output line); non-trivial = every evaluation carries a value of a distinguishable class"
 	r.Assumptions = []string{"exhaustive: all 8/16-bit integers, all float32 bit patterns (thorough) or 2^16 upper halves x 5 lower halves (quick), all strings up to length 3 (quick) / 4 (thorough) over a 21-symbol byte alphabet; 32/64-bit integers and float64 on boundary neighbourhoods", "times within the UnixNano range for the UNIX* formats; DurationFieldUnit > 0", "reference float rendering is encoding/json's"}
 	if tier == "quick" {
@@ -405,7 +406,9 @@ func runC02() {
 		times := []time.Time{seqx.T0, seqx.TEp, seqx.TFix, seqx.TNeg, seqx.TNow, time.Unix(0, math.MaxInt64).UTC(), time.Unix(0, math.MinInt64).UTC(),
 			time.Unix(1, -1).UTC(), time.Date(2262, 4, 11, 23, 47, 16, 854775807, time.UTC), time.Date(1677, 9, 21, 0, 12, 43, 145224192, time.UTC),
 			time.Date(2021, 1, 1, 0, 0, 0, 0, time.FixedZone("P", 14*3600)), time.Date(2021, 1, 1, 0, 0, 0, 999999999, time.FixedZone("M", -12*3600))}
-		durs := []time.Duration{0, 1, -1, time.Millisecond - 1, time.Millisecond, time.Millisecond + 1, math.MaxInt64, math.MinInt64, 1500 * time.Microsecond, -time.Second, 3, 4, 5}
+		durs := []time.Duration{0, 1, -1, time.Millisecond - 1, time.Millisecond, time.Millisecond + 1, math.MaxInt64, math.MinInt64, 1500 * time.Microsecond, -time.Second, 3, 4, 5,
+			// beyond 2^53 ns a float64 quotient is no longer exact: odd values, and values one nanosecond short of a whole unit
+			1<<53 + 1, -(1<<53 + 1), 9007199255*time.Millisecond - 1, 9007200*time.Second - 1, -(9007200*time.Second - 1), 9007199254741*time.Microsecond - 1, math.MaxInt64 - 1, 1<<62 + 1, 3*(1<<60) - 1}
 		for si := -1; si < nset; si++ {
 			var set []int
 			if si >= 0 {
@@ -429,12 +432,13 @@ func runC02() {
 				}
 			}
 		}
-		// two deviations: unit x integer x precision
+		// two deviations: unit x integer x precision (never two values of the same setting)
+		family := func(name string) string { return strings.SplitN(name, "=", 2)[0] }
 		var durSets [][]int
 		for si := 0; si < nset; si++ {
 			for sj := si + 1; sj < nset; sj++ {
 				a, b := seqx.AllSettings()[si].Name, seqx.AllSettings()[sj].Name
-				if (strings.HasPrefix(a, "Duration") || strings.HasPrefix(a, "FloatingPoint")) && (strings.HasPrefix(b, "Duration") || strings.HasPrefix(b, "FloatingPoint")) && a[:12] != b[:12] {
+				if (strings.HasPrefix(a, "Duration") || strings.HasPrefix(a, "FloatingPoint")) && (strings.HasPrefix(b, "Duration") || strings.HasPrefix(b, "FloatingPoint")) && family(a) != family(b) {
 					durSets = append(durSets, []int{si, sj})
 				}
 			}
